@@ -193,7 +193,7 @@ func Run(tier string) {
 			if run.Thorough() {
 				files = "FilesFull"
 			}
-			if typ == "ed25519" && stored == "A" {
+			if typ == "ed25519" {
 				files = "FilesFull"
 			}
 			cfg := fmt.Sprintf("SPECIFICATION Spec\nCONSTANTS\n Stored = \"%s\"\n Files <- %s\n MaxCalls = %d\n CacheBeforeValidate = FALSE\nINVARIANTS PromptOnlyOnMatch PromptWhenAddressed CacheOnlyValidated HistoryFree Emit\nCHECK_DEADLOCK FALSE\n", stored, files, maxCalls)
